@@ -209,3 +209,125 @@ def apply(root, kind, key, all_kw=None):
         for rel in py_files(root):
             compile(open(os.path.join(root, rel)).read(), rel, "exec")
     return n
+
+
+# ----------------------------------------------------------------------------------------------------------------------
+# behaviour-preserving reshapings (one variant per module and kind; applied at every site of the module)
+
+class _SwapIf(ast.NodeTransformer):
+    """if c: A else: B   ->   if not c: B else: A      (only plain if/else, no elif on either side)"""
+
+    def __init__(self):
+        self.n = 0
+
+    def visit_If(self, node):
+        self.generic_visit(node)
+        if node.orelse and not (len(node.orelse) == 1 and isinstance(node.orelse[0], ast.If)) and \
+                not (len(node.body) == 1 and isinstance(node.body[0], ast.If)):
+            t = node.test
+            node.test = t.operand if isinstance(t, ast.UnaryOp) and isinstance(t.op, ast.Not) else ast.UnaryOp(op=ast.Not(), operand=t)
+            node.body, node.orelse = node.orelse, node.body
+            self.n += 1
+        return node
+
+
+class _FlipCmp(ast.NodeTransformer):
+    """a < b -> b > a, a == b -> b == a, ... (single comparisons whose operands are free of calls, so evaluation order cannot matter)"""
+    MIRROR = {ast.Lt: ast.Gt, ast.Gt: ast.Lt, ast.LtE: ast.GtE, ast.GtE: ast.LtE, ast.Eq: ast.Eq, ast.NotEq: ast.NotEq}
+
+    def __init__(self):
+        self.n = 0
+
+    def visit_Compare(self, node):
+        self.generic_visit(node)
+        if len(node.ops) == 1 and type(node.ops[0]) in self.MIRROR and \
+                not any(isinstance(x, (ast.Call, ast.Await, ast.NamedExpr, ast.Yield)) for x in ast.walk(node)):
+            l, r = node.left, node.comparators[0]
+            node.left, node.comparators, node.ops = r, [l], [self.MIRROR[type(node.ops[0])]()]
+            self.n += 1
+        return node
+
+
+class _RetTmp(ast.NodeTransformer):
+    """return E  ->  ret_value = E; return ret_value"""
+
+    def __init__(self):
+        self.n = 0
+
+    def _block(self, stmts):
+        out = []
+        for st in stmts:
+            if isinstance(st, ast.Return) and st.value is not None and not isinstance(st.value, (ast.Name, ast.Constant)):
+                out.append(ast.Assign(targets=[ast.Name(id="ret_value_", ctx=ast.Store())], value=st.value))
+                out.append(ast.Return(value=ast.Name(id="ret_value_", ctx=ast.Load())))
+                self.n += 1
+            else:
+                out.append(st)
+        return out
+
+    def generic_visit(self, node):
+        super().generic_visit(node)
+        if isinstance(node, ast.Lambda):
+            return node
+        for field in ("body", "orelse", "finalbody"):
+            lst = getattr(node, field, None)
+            if isinstance(lst, list) and lst and isinstance(lst[0], ast.stmt):
+                setattr(node, field, self._block(lst))
+        if isinstance(node, ast.Try):
+            for h in node.handlers:
+                h.body = self._block(h.body)
+        return node
+
+
+class _TestTmp(ast.NodeTransformer):
+    """if <test>: ...  ->  cond_ = <test>; if cond_: ...   (first `if` of an if/elif chain only; not for while)"""
+
+    def __init__(self):
+        self.n = 0
+
+    def _block(self, stmts):
+        out = []
+        for st in stmts:
+            if isinstance(st, ast.If) and not isinstance(st.test, (ast.Name, ast.Constant)) and \
+                    not any(isinstance(x, (ast.NamedExpr, ast.Await, ast.Yield)) for x in ast.walk(st.test)):
+                out.append(ast.Assign(targets=[ast.Name(id="cond_", ctx=ast.Store())], value=st.test))
+                st.test = ast.Name(id="cond_", ctx=ast.Load())
+                self.n += 1
+            out.append(st)
+        return out
+
+    def generic_visit(self, node):
+        super().generic_visit(node)
+        for field in ("body", "orelse", "finalbody"):
+            lst = getattr(node, field, None)
+            if isinstance(lst, list) and lst and isinstance(lst[0], ast.stmt):
+                if field == "orelse" and isinstance(node, ast.If) and len(lst) == 1 and isinstance(lst[0], ast.If):
+                    continue      # elif: the test must stay where it is
+                if isinstance(node, ast.ClassDef) or isinstance(node, ast.Module):
+                    continue
+                setattr(node, field, self._block(lst))
+        if isinstance(node, ast.Try):
+            for h in node.handlers:
+                h.body = self._block(h.body)
+        return node
+
+
+RESHAPES = {"swap_if": _SwapIf, "flip_cmp": _FlipCmp, "ret_tmp": _RetTmp, "test_tmp": _TestTmp}
+
+
+def reshape_variants(root):
+    mods = [r for r in py_files(root) if not r.startswith("test/")]
+    return [(k, r) for k in RESHAPES for r in mods]
+
+
+def apply_reshape(root, kind, rel):
+    path = os.path.join(root, rel)
+    tree = ast.parse(open(path).read())
+    tr = RESHAPES[kind]()
+    tree = tr.visit(tree)
+    if tr.n:
+        ast.fix_missing_locations(tree)
+        src = ast.unparse(tree) + "\n"
+        compile(src, rel, "exec")
+        open(path, "w").write(src)
+    return tr.n
